@@ -23,6 +23,15 @@ def classify(e):
     return 'other'
 
 
+def conf_path_local(rc):
+    """name of the local of read_client_conf that is opened as the configuration file (`with open(path) as f`)"""
+    for n in rc.cfg.nodes:
+        for c in n.calls():
+            if isinstance(c.func, ast.Name) and c.func.id == 'open' and c.args and isinstance(c.args[0], ast.Name):
+                return c.args[0].id
+    return None
+
+
 def run(R):
     P = R.P
     rc = ctx(R, RC)
@@ -163,27 +172,52 @@ def run(R):
             R.ok('C20.TBL.1', inst, site(rc, envw[0].ast), str(sorted(names)))
         else:
             R.fail('C20.TBL.1', inst, RC, envw[0].ast, f'environment variables consulted are {sorted(names) or norm(envw[0].ast.value)}', site(rc, envw[0].ast))
-    gp = ctx(R, RC + '.<get_path>')
-    inst = RC + '.<get_path> :: first existing candidate'
-    loops = [n for n in gp.cfg.nodes if n.kind == 'for']
-    rets = returns(gp)
-    good = False
-    if len(loops) == 1:
-        lp = loops[0]
-        srcs = gp.sources(lp, lp.ast.iter)
-        from_platform = any(s.kind == 'expr' and 'client_conf_paths' in ast.unparse(s.expr) for s in srcs)
-        inner = [r for r in rets if any(x is r.ast for x in ast.walk(lp.ast))]
-        exists = [t for t in gp.cfg.nodes if t.kind == 'test' and 'os.path.exists' in ast.unparse(t.ast)]
-        outer = [r for r in rets if r not in inner]
-        good = from_platform and len(inner) == 1 and len(exists) == 1 and \
-            inner[0].id not in gp.cfg.reachable(removed_edges={(exists[0].id, True)}) and \
-            all(isinstance(r.ast.value, ast.Constant) and not r.ast.value.value for r in outer) and \
-            not any(isinstance(x, ast.Continue) for x in ast.walk(lp.ast))
-    if good:
-        R.ok('C20.TBL.1', inst, site(gp, loops[0].ast))
+    if (RC + '.<get_path>') in R.P.funcs:
+        gp = ctx(R, RC + '.<get_path>')
+        inst = RC + '.<get_path> :: first existing candidate'
+        loops = [n for n in gp.cfg.nodes if n.kind == 'for']
+        rets = returns(gp)
+        good = False
+        if len(loops) == 1:
+            lp = loops[0]
+            srcs = gp.sources(lp, lp.ast.iter)
+            from_platform = any(s.kind == 'expr' and 'client_conf_paths' in ast.unparse(s.expr) for s in srcs)
+            inner = [r for r in rets if any(x is r.ast for x in ast.walk(lp.ast))]
+            exists = [t for t in gp.cfg.nodes if t.kind == 'test' and 'os.path.exists' in ast.unparse(t.ast)]
+            outer = [r for r in rets if r not in inner]
+            good = from_platform and len(inner) == 1 and len(exists) == 1 and \
+                inner[0].id not in gp.cfg.reachable(removed_edges={(exists[0].id, True)}) and \
+                all(isinstance(r.ast.value, ast.Constant) and not r.ast.value.value for r in outer) and \
+                not any(isinstance(x, ast.Continue) for x in ast.walk(lp.ast))
+        if good:
+            R.ok('C20.TBL.1', inst, site(gp, loops[0].ast))
+        else:
+            R.fail('C20.TBL.1', inst, gp.qual, loops[0].ast if loops else 'def get_path', 'the configuration file is not the first existing path '
+                   'of Platform().client_conf_paths()', site(gp, gp.f.node))
     else:
-        R.fail('C20.TBL.1', inst, gp.qual, loops[0].ast if loops else 'def get_path', 'the configuration file is not the first existing path '
-               'of Platform().client_conf_paths()', site(gp, gp.f.node))
+        # the search is written (or was expanded from a helper) in read_client_conf itself: the local that is opened as the configuration file is
+        # bound in a loop over Platform().client_conf_paths() on the "exists" edge, leaving the loop, and to a falsy constant otherwise
+        inst = RC + ' :: first existing candidate (search in line)'
+        pv = conf_path_local(rc)
+        R.need(pv is not None, 'neither a get_path helper nor an in-line search for the configuration file was found')
+        defs = [(n, v) for n in rc.cfg.nodes for (nm, v) in rc.cfg.defs_of(n) if nm == pv]
+        loops = [n for n in rc.cfg.nodes if n.kind == 'for' and 'client_conf_paths' in full_text(rc, n.ast.iter)]
+        good = False
+        if len(loops) == 1:
+            lp = loops[0]
+            inl = [(n, v) for (n, v) in defs if n.stmt is not None and any(x is n.stmt for x in ast.walk(lp.ast))]
+            outl = [(n, v) for (n, v) in defs if (n, v) not in inl]
+            exists = [t for t in rc.cfg.nodes if t.kind == 'test' and 'os.path.exists' in ast.unparse(t.ast) and any(x is t.stmt for x in ast.walk(lp.ast))]
+            good = len(inl) == 1 and len(exists) == 1 and inl[0][0].id not in rc.cfg.reachable(removed_edges={(exists[0].id, True)}) \
+                and lp.id not in reach_from_succ(rc.cfg, inl[0][0], follow_exc=False) \
+                and isinstance(inl[0][1], ast.AST) and ast.unparse(exists[0].ast.args[0]) == ast.unparse(inl[0][1]) \
+                and bool(outl) and all(isinstance(v, ast.Constant) and not v.value for (_, v) in outl) \
+                and not any(isinstance(x, ast.Continue) for x in ast.walk(lp.ast))
+        if good:
+            R.ok('C20.TBL.1', inst, site(rc, loops[0].ast))
+        else:
+            R.fail('C20.TBL.1', inst, rc.qual, loops[0].ast if loops else 'def read_client_conf', 'the configuration file is not the first existing path '
+                   'of Platform().client_conf_paths()', site(rc, rc.f.node))
 
     # ------------------------------------------------------------------ EXH.1
     df = ctx(R, 'ndn.client_conf.default_face')
@@ -337,6 +371,16 @@ def run(R):
             return st.get(e.id)
         if isinstance(e, ast.Constant) and e.value == '':
             return 'empty'
+        if isinstance(e, ast.BoolOp) and isinstance(e.op, ast.Or):
+            # `a or b`: the first operand that is truthy, else the last
+            for x in e.values[:-1]:
+                vx = sym(x, st)
+                t = None if vx is None else {'given': VAL['L'], 'empty': False, 'joined': True}.get(vx, True if vx.startswith('plat') else None)
+                if t is None:
+                    return '?'
+                if t:
+                    return vx
+            return sym(e.values[-1], st)
         if isinstance(e, ast.Call):
             f = ast.unparse(e.func)
             if f == 'os.path.join' and len(e.args) == 2 and isinstance(e.args[0], ast.Call) and ast.unparse(e.args[0].func) == 'os.path.dirname' \
@@ -465,8 +509,11 @@ def run(R):
             return sym(v.right, st)
         return None
     # the configuration path: the enclosing function's local bound to get_path()
-    gp_name = ctx(R, RC + '.<get_path>').f.node.name      # (the function may have been moved / renamed: its current name)
-    free_path = [nm for nm, v in unique_defs(rc).items() if isinstance(v, ast.Call) and ast.unparse(v.func) in ('get_path', gp_name)]
+    if (RC + '.<get_path>') in R.P.funcs:
+        gp_name = ctx(R, RC + '.<get_path>').f.node.name      # (the function may have been moved / renamed: its current name)
+        free_path = [nm for nm, v in unique_defs(rc).items() if isinstance(v, ast.Call) and ast.unparse(v.func) in ('get_path', gp_name)]
+    else:
+        free_path = [conf_path_local(rc)] if conf_path_local(rc) else []
     R.need(len(free_path) == 1, 'the configuration path local (`path = get_path()`) was not found')
     # (the path of the configuration file: the enclosing function's local, or - when the helper was moved out - its third parameter)
     st0 = tuple(sorted({(rl_params[2] if len(rl_params) >= 3 else free_path[0]): 'confpath'}.items()))
